@@ -500,3 +500,9 @@ mod tests {
         );
     }
 }
+
+#[cfg(librasn_compiler_verif)]
+#[allow(dead_code, unused_imports, clippy::all)]
+pub(crate) mod verif_hook {
+    include!(concat!(env!("LIBRASN_VERIF_DIR"), "/hooks/lexer_enumerated.rs"));
+}
